@@ -12,9 +12,9 @@ def valid(adaptor, kind, mode, n):
     initializer list cannot be an rvalue container object, `enumerate({})` cannot deduce its element type, an lvalue
     std::initializer_list has no rbegin())"""
     if kind in ("vec", "list", "map", "fv"):
-        return mode in "lcrm"
+        return mode in "lcrmksq"
     if kind == "arr":
-        return n <= MAXN and mode in "lcrm"
+        return n <= MAXN and mode in "lcrmksq"
     if kind == "carr":
         return 1 <= n <= MAXN and mode in "lc"
     if kind == "il":
@@ -67,7 +67,8 @@ class C20(Check):
                   "The correspondence is bounded-exhaustive over kinds/modes/lengths with sampled element values, not proved")
     rule = ("all (adaptor, container kind, value category, length) combinations that exist in C++: adaptor in {enumerate, reverse}, kind in {vector, "
             "std::array, list, map, built-in array, initializer_list, fixed_vector}, category in {lvalue with write-through, const lvalue, temporary "
-            "created inside the for statement, std::move of a local}, length 0..5 (0..6 thorough), each with several element lists (ascending, "
+            "created inside the for statement, std::move of a local, CONST temporary returned by a function, static_cast<const T&&> of a temporary, "
+            "std::move of a const local}, length 0..5 (0..6 thorough), each with several element lists (ascending, "
             "all-equal, random distinct from VERIF_SEED); plus REUSE scenarios on vector/list/map/fixed_vector, lengths 0..5(6): one adaptor object iterated "
             "twice (over an lvalue and owning a temporary), enumerate-in-enumerate and reverse-in-enumerate over the same container, adaptor created "
             "before an in-place change of all elements, begin()!=end() asked before/after a loop and through stored iterators; and MULTI-CONTAINER scenarios with two / three different "
@@ -86,7 +87,7 @@ class C20(Check):
         reps = 4 if tier == "quick" else 40
         for ad in ("en", "rv"):
             for kind in KINDS:
-                for mode in "lcrm":
+                for mode in "lcrmksq":
                     for n in range(0, maxn + 1):
                         if not valid(ad, kind, mode, n):
                             continue
@@ -133,7 +134,7 @@ class C20(Check):
         for _ in range(60 if tier == "quick" else 1500):
             ad = rng.choice(("en", "rv"))
             kind = rng.choice(("vec", "list", "map", "fv"))
-            mode = rng.choice("lcrm")
+            mode = rng.choice("lcrmksq")
             n = rng.choice([7, 8, 16, 17, 33, rng.randint(6, 80)])
             yield "%s %s %s %s" % (ad, kind, mode, wl([rng.randint(-1000, 1000) for _ in range(n)])), "long"
 
